@@ -353,7 +353,8 @@ DeviateNode(t, dv) ==
       \* the grammar of every deviate statement (RFC 6020 7.18.3.2 tables, section 12) takes each property but must and
       \* unique at most once
       twice == \E i, j \in 1..Len(dv.subs) : i < j /\ dv.subs[i].kw = dv.subs[j].kw /\ ~Multi(dv.subs[i].kw)
-  IN IF twice THEN AddErr(F[Len(dv.subs)], Err("deviate-property-twice")) ELSE F[Len(dv.subs)]
+  \* (such a statement is refused as a whole: what its single properties would do is beside the point)
+  IN IF twice THEN AddErr(t, Err("deviate-property-twice")) ELSE F[Len(dv.subs)]
 \* a whole deviation on the nodes of the file that holds its target
 DeviationAt(nodes, dn, M) ==
   LET ip == Locate(nodes, dn.arg, M)
@@ -429,12 +430,17 @@ FeatureUnjudged(FS, M) ==
      "dirs"    FeaturesFromLocations(TRUE, loc1 [, loc2]): a file loc/<module>/<feature> exists for xs (loc1), ys (loc2)
      "multi"   MultiFeatureCheckers(ms...): "Check each FeaturesChecker in order, the last to report Enabled or Disabled
                wins.  Disabled is reported if not found."  nil members are skipped.
-     "config"  compile.Config{CapsLocation: a directory with files for xs, Features: ms[1]} = the capability directory
-               first, Config.Features on top of it
-   A feature is enabled iff the source reports Enabled for it.  The comment on the capability directory ("if the file
-   exists the feature is enabled, otherwise it is disabled") leaves open whether a directory WITHOUT the file is silent
-   or reports Disabled when it is combined with other checkers: both readings are evaluated (alt) and a source on which
-   they differ is not judged.                                                                                          *)
+     "config"  compile.Config{CapsLocation: a directory with files for xs, Features: ms[1]}, compiled from files
+   A feature is enabled iff the source reports Enabled for it.  Two things are not documented and are therefore read
+   both ways (a source on which the readings give different enabled sets is not judged):
+     * the comment on the capability directory ("if the file exists the feature is enabled, otherwise it is disabled")
+       leaves open whether a directory WITHOUT the file is silent or reports Disabled when it is combined with other
+       checkers (reading off);
+     * nothing says whether Config.Features or the capability directory of a Config has the last word (the code
+       combines them with MultiFeatureCheckers, directory first): reading swap puts the directory last.  (swap together
+       with off would make Config.Features unable to enable anything and is not a reading.)
+   So a Config is judged where its two parts agree or one of them is silent, and the precedence documented for
+   MultiFeatureCheckers is judged wherever it is used directly.                                                       *)
 SrcNil == [op |-> "nil", b |-> FALSE, xs |-> <<>>, ys |-> <<>>, ms |-> <<>>]
 SrcNames(b, xs) == [op |-> "names", b |-> b, xs |-> xs, ys |-> <<>>, ms |-> <<>>]
 SrcTable(on, off) == [op |-> "table", b |-> FALSE, xs |-> on, ys |-> off, ms |-> <<>>]
@@ -442,18 +448,20 @@ SrcDirs(l1, l2) == [op |-> "dirs", b |-> TRUE, xs |-> l1, ys |-> l2, ms |-> <<>>
 SrcMulti(ms) == [op |-> "multi", b |-> FALSE, xs |-> <<>>, ys |-> <<>>, ms |-> ms]
 SrcConfig(caps, feat) == [op |-> "config", b |-> FALSE, xs |-> caps, ys |-> <<>>, ms |-> <<feat>>]
 MaxOf(S) == CHOOSE x \in S : \A y \in S : x >= y
+Reading0 == [off |-> FALSE, swap |-> FALSE]
+Readings == {Reading0, [off |-> TRUE, swap |-> FALSE], [off |-> FALSE, swap |-> TRUE]}
 RECURSIVE SrcStatus(_, _, _)
-SrcStatus(s, id, alt) ==
+SrcStatus(s, id, r) ==
   CASE s.op = "names" -> IF id \in Range(s.xs) THEN (IF s.b THEN "on" ELSE "off") ELSE "silent"
     [] s.op = "table" -> IF id \in Range(s.xs) THEN "on" ELSE IF id \in Range(s.ys) THEN "off" ELSE "silent"
-    [] s.op = "dirs" -> IF id \in Range(s.xs) \cup Range(s.ys) THEN "on" ELSE IF alt THEN "off" ELSE "silent"
-    [] s.op = "multi" -> LET def == {i \in 1..Len(s.ms) : SrcStatus(s.ms[i], id, alt) # "silent"}
-                         IN IF def = {} THEN "off" ELSE SrcStatus(s.ms[MaxOf(def)], id, alt)
-    [] s.op = "config" -> SrcStatus(SrcMulti(<<SrcDirs(s.xs, <<>>), s.ms[1]>>), id, alt)
+    [] s.op = "dirs" -> IF id \in Range(s.xs) \cup Range(s.ys) THEN "on" ELSE IF r.off THEN "off" ELSE "silent"
+    [] s.op = "multi" -> LET def == {i \in 1..Len(s.ms) : SrcStatus(s.ms[i], id, r) # "silent"}
+                         IN IF def = {} THEN "off" ELSE SrcStatus(s.ms[MaxOf(def)], id, r)
+    [] s.op = "config" -> SrcStatus(SrcMulti(IF r.swap THEN <<s.ms[1], SrcDirs(s.xs, <<>>)>> ELSE <<SrcDirs(s.xs, <<>>), s.ms[1]>>), id, r)
     [] OTHER -> "silent"
 \* the features of universe U that source s enables / whether that is prescribed
-SrcEnabled(s, U) == {id \in U : SrcStatus(s, id, FALSE) = "on"}
-SrcOpen(s, U) == \E id \in U : (SrcStatus(s, id, FALSE) = "on") # (SrcStatus(s, id, TRUE) = "on")
+SrcEnabled(s, U) == {id \in U : SrcStatus(s, id, Reading0) = "on"}
+SrcOpen(s, U) == \E r \in Readings : {id \in U : SrcStatus(s, id, r) = "on"} # SrcEnabled(s, U)
 
 \* ------------------------------------------------------------ Build: statement tree -> schema tree
 Blank(kind, name) ==
@@ -691,7 +699,7 @@ DeclIds(M) == UNION {{<<ModNameOf(M[i]), ft.arg[1]>> : ft \in Range(Sub(M[i], "f
 AnalyseSrc(M, src) ==
   LET U == DeclIds(M)
       a == Analyse(M, SrcEnabled(src, U))
-  IN IF SrcOpen(src, U) THEN [a EXCEPT !.verdict = "unjudged", !.why = @ \cup {"a capability directory without a file for the feature combined with other checkers"}]
+  IN IF SrcOpen(src, U) THEN [a EXCEPT !.verdict = "unjudged", !.why = @ \cup {"feature source whose outcome rests on an undocumented precedence (capability directory without the file / Config.Features against the capability directory)"}]
      ELSE a
 Schema(M, E) == LET a == Analyse(M, E) IN [verdict |-> a.verdict, schema |-> IF a.verdict \in {"ok", "open"} THEN MaskTree(a.schema, <<>>, a.opens) ELSE Blank("tree", "")]
 Inline(M) == Analyse(M, {}).inline
